@@ -1402,9 +1402,17 @@ def emit_proxy_glue(c, iface_path):
     fn pval<V: serde::Serialize, E>(r: Result<V, E>, cl: fn(&E) -> ErrClass) -> rt::proxy::POut {
         match r { Ok(v) => rt::proxy::POut::Val(j(&v)), Err(e) => rt::proxy::POut::Err(cl(&e)) }
     }
-    pub struct PCodeImpl<'a>(sv::mt::CodeId<'a, %s, rt::proxy::__APP__>);
+    /// the generated `CodeId` plus every `Proxy` value its instantiations returned (kept, so that
+    /// later calls on those contracts go through the very value sylvia handed out)
+    pub struct PCodeImpl<'a>(sv::mt::CodeId<'a, %s, rt::proxy::__APP__>, std::cell::RefCell<std::collections::BTreeMap<String, sylvia::multitest::Proxy<'a, rt::proxy::__APP__, %s>>>);
     impl<'a> rt::proxy::PCode<'a> for PCodeImpl<'a> {
         fn code_id(&self) -> u64 { self.0.code_id() }
+        fn call_kept(&self, addr: &Addr, hid: &str, args: &[u8], funds: Option<&[Coin]>, sender: &Addr, new_code: u64) -> Option<rt::proxy::POut> {
+            let kept = self.1.borrow();
+            let p = kept.get(addr.as_str())?;
+            let run = || -> StdResult<rt::proxy::POut> { let v = parse_args(args)?; proxy_dispatch(p, hid, &v, funds, sender, new_code) };
+            Some(match run() { Ok(o) => o, Err(e) => rt::proxy::POut::Err(ErrClass::Other(format!("harness: {}", e))) })
+        }
         fn instantiate(&self, args: &[u8], opts: &rt::proxy::InstOpts, sender: &Addr) -> rt::proxy::POut {
             let run = || -> StdResult<rt::proxy::POut> {
                 let v = parse_args(args)?;
@@ -1413,22 +1421,26 @@ def emit_proxy_glue(c, iface_path):
                 if let Some(a) = opts.admin { p = p.with_admin(a); }
                 if let Some(f) = opts.funds { p = p.with_funds(f); }
                 if let Some(s) = opts.salt { p = p.with_salt(s); }
-                Ok(match p.call(sender) { Ok(px) => rt::proxy::POut::Addr(px.contract_addr.to_string()), Err(e) => rt::proxy::POut::Err(classify_own(&e)) })
+                Ok(match p.call(sender) { Ok(px) => { let a = px.contract_addr.to_string(); self.1.borrow_mut().insert(a.clone(), px); rt::proxy::POut::Addr(a) } Err(e) => rt::proxy::POut::Err(classify_own(&e)) })
             };
             match run() { Ok(o) => o, Err(e) => rt::proxy::POut::Err(ErrClass::Other(format!("harness: {}", e))) }
         }
     }
     pub fn proxy_store<'a>(app: &'a rt::proxy::Sv__APP__) -> Box<dyn rt::proxy::PCode<'a> + 'a> {
-        Box::new(PCodeImpl(sv::mt::CodeId::store_code(app)))
+        Box::new(PCodeImpl(sv::mt::CodeId::store_code(app), Default::default()))
+    }
+    #[allow(unused_variables)]
+    fn proxy_dispatch(p: &sylvia::multitest::Proxy<'_, rt::proxy::__APP__, %s>, hid: &str, v: &Value, funds: Option<&[Coin]>, sender: &Addr, new_code: u64) -> StdResult<rt::proxy::POut> {
+        Ok(match hid {
+            %s
+            _ => rt::proxy::POut::Err(ErrClass::Other(format!("harness: no proxy method {}", hid))),
+        })
     }
     pub fn proxy_call(app: &rt::proxy::Sv__APP__, addr: &Addr, hid: &str, args: &[u8], funds: Option<&[Coin]>, sender: &Addr, new_code: u64) -> rt::proxy::POut {
         let run = || -> StdResult<rt::proxy::POut> {
             let v = parse_args(args)?;
             let p: sylvia::multitest::Proxy<'_, rt::proxy::__APP__, %s> = sylvia::multitest::Proxy::new(addr.clone(), app);
-            Ok(match hid {
-                %s
-                _ => rt::proxy::POut::Err(ErrClass::Other(format!("harness: no proxy method {}", hid))),
-            })
+            proxy_dispatch(&p, hid, &v, funds, sender, new_code)
         };
         match run() { Ok(o) => o, Err(e) => rt::proxy::POut::Err(ErrClass::Other(format!("harness: {}", e))) }
     }
@@ -1437,9 +1449,11 @@ def emit_proxy_glue(c, iface_path):
         errty,
         cls,
         ST,
+        ST,
         typed_args(inst, tmap_for(inst)),
         ST,
-        "\n                ".join(arms),
+        "\n            ".join(arms),
+        ST,
     )).replace("__APP__", APP).replace("__VAR__", VAR)
 
 
